@@ -488,6 +488,9 @@ func (af *AdaptationField) SetHasTransportPrivateData(value bool) error {
 	if delta == 0 {
 		return nil // nothing changes, in particular the length byte is kept
 	}
+	if delta < 0 {
+		delta = -af.transportPrivateDataLength() // remove the length byte and the data
+	}
 	err := af.resizeAF(af.transportPrivateDataStart(), delta)
 	if err != nil {
 		return err
@@ -550,6 +553,9 @@ func (af *AdaptationField) SetHasAdaptationFieldExtension(value bool) error {
 	delta := 1 * af.bitDelta(5, 0x01, value)
 	if delta == 0 {
 		return nil // nothing changes, in particular the length byte is kept
+	}
+	if delta < 0 {
+		delta = -af.adaptationExtensionLength() // remove the length byte and the data
 	}
 	err := af.resizeAF(af.adaptationExtensionStart(), delta)
 	if err != nil {
